@@ -134,7 +134,9 @@ where
     // would skip ahead to a `+<digits>` in the section heading that may follow the second `@@`.
     let lines_pattern = Regex::new(r"^@@.*?\+(\d+)(,(\d+))?").unwrap();
 
-    let file_filter = Regex::new(&format!("^{file_filter}$"))?;
+    // The filter has to match the whole path: group it, or a top-level alternation
+    // (`a\.rs|b\.rs`) would be anchored on one side only.
+    let file_filter = Regex::new(&format!("^(?:{file_filter})$"))?;
 
     let mut current_file = None;
 
